@@ -6,7 +6,14 @@ from oracle_util import *
 ALPHABET = ["N2.5", "N0", "N1", "Vx", "Vy", "Cpi", "Fsin", "OAdd", "OSub", "OMul", "ODiv", "OCaret", "OFac", "LP", "RP"]
 CHUNK_MIN = 64
 
-RULE = ("(hardening: 24 000 / 300 000 biased sequences of 4..16 tokens over the whole vocabulary [cos tan cot log ln, e tau phi, % and the dot operator], every function / constant name in lower, upper and mixed case and as symbol, nesting 200 / 500 / 2000 deep, literals of 16..57 significant digits and at the ends of the binary64 range through the lexer, literals next to 0 and 1 at every distance in every folding position; numeric comparisons also accept a difference explained by first-order rounding-error propagation) exhaustive: every token sequence of length <= 5 (quick) / 6 (thorough) over {2.5, 0, 1, x, y, pi, sin, +, -, *, /, ^, !, (, )} "
+RULE = ("(hardening 4: source texts are read by the harness's own reference tokeniser - a run of letters that spells a function or constant "
+        "name in any case is that name, every other letter is the variable of exactly that letter, so XY is X*Y and never x*y - and the "
+        "conventional reading is taken from THOSE words, with variables bound case-sensitively; 3 000 / 60 000 random trees with variables "
+        "of both cases side by side [XY, xY, aBc, 2XY, X2Y, xY^2z, 2piX with the symbol, XE] and with the same sub-expression twice, "
+        "against the generator's own tree; every ordered pair of the 52 letters [a sample in the quick tier] in 16 shapes; names in every "
+        "case pattern glued to letters, digits and symbols; 4 000 / 60 000 token sequences with upper-case and repeated variables through "
+        "parser, folder and printer) "
+        "(hardening: 24 000 / 300 000 biased sequences of 4..16 tokens over the whole vocabulary [cos tan cot log ln, e tau phi, % and the dot operator], every function / constant name in lower, upper and mixed case and as symbol, nesting 200 / 500 / 2000 deep, literals of 16..57 significant digits and at the ends of the binary64 range through the lexer, literals next to 0 and 1 at every distance in every folding position; numeric comparisons also accept a difference explained by first-order rounding-error propagation) exhaustive: every token sequence of length <= 5 (quick) / 6 (thorough) over {2.5, 0, 1, x, y, pi, sin, +, -, *, /, ^, !, (, )} "
         "through implied multiplication, parser, folding, Display and re-parsing (digest per 2-token prefix class, refined to a single "
         "sequence on any difference); random conventional expression trees of depth <= 6 rendered with minimal and with redundant "
         "parentheses; arbitrary character strings up to 200 characters through lexer and parser. Non-trivial = a prefix class with at "
